@@ -503,12 +503,31 @@ func c01r3(c *core.Ctx) {
 	}
 	if f := p.Func("hap", "(*context).GetConnectionKey"); f != nil {
 		good, full := true, false
-		core.Instrs(f, func(i ssa.Instruction) {
-			r, isR := i.(*ssa.Return)
-			if !isR || len(res(r)) != 1 {
+		// every value the function can hand back: the operand of each return, and for a result variable each value it merges
+		var alternatives []ssa.Value
+		var split func(v ssa.Value, depth int)
+		split = func(v ssa.Value, depth int) {
+			switch x := v.(type) {
+			case *ssa.MakeInterface:
+				split(x.X, depth)
 				return
+			case *ssa.Phi:
+				if depth < 4 {
+					for _, e := range x.Edges {
+						split(e, depth+1)
+					}
+					return
+				}
 			}
-			ls := leaves(res(r)[0])
+			alternatives = append(alternatives, v)
+		}
+		core.Instrs(f, func(i ssa.Instruction) {
+			if r, isR := i.(*ssa.Return); isR && len(res(r)) == 1 {
+				split(res(r)[0], 0)
+			}
+		})
+		for _, alt := range alternatives {
+			ls := leaves(alt)
 			remote, local := false, false
 			for _, l := range ls {
 				if _, isK := core.ConstString(l); isK {
@@ -539,7 +558,7 @@ func c01r3(c *core.Ctx) {
 				full = true
 				sepReq = sepOf(ls)
 			}
-		})
+		}
 		c.Check(good, "key:"+ctxT+".GetConnectionKey", f.Pos(), "request key is built from r.RemoteAddr", "GetConnectionKey does not derive the key from the request's remote address")
 		c.Check(good && full && sepReq == sepConn, "key-unique:"+ctxT+".GetConnectionKey", f.Pos(), "request key is built from r.RemoteAddr and the local address of the connection, like the connection key", "the key under which a request looks up its session is not built from both ends of the connection in the same way as the key of the connection itself (remote address, separator, local address): requests find the session of another connection, or none")
 	} else {
